@@ -68,26 +68,29 @@ fn pattern(i: u64, quick: bool) -> u32 {
 fn sweep1(cfg: &Cfg, backend: &str, fns: &[Fn1], rep: &mut Report) {
     let n: u64 = if cfg.quick() { 1 << 22 } else { 1 << 32 };
     for f in fns {
-        let maxerr = Mutex::new(0.0f64);
+        // (the running maximum of the error is kept per worker thread and merged afterwards: a shared lock per evaluation
+        // made the 2^32 sweeps take tens of minutes)
+        let site = format!("max_err:{backend}:{}", f.name);
         let r = par_range(cfg, n, |i, r| {
             let x = f32::from_bits(pattern(i, cfg.quick()));
             if !(f.dom)(x) { return; }
             r.eval();
-            check1(backend, f, x, r, Some(&maxerr));
+            check1(backend, f, x, r, Some(&site));
         });
+        let me = r.margins.get(&site).copied().unwrap_or(0.0);
         rep.merge(r);
-        rep.set(&format!("max_err:{backend}:{}", f.name), *maxerr.lock().unwrap());
+        rep.set(&site, me);
         rep.set(&format!("domain:{backend}:{}", f.name), f.dom_txt);
     }
 }
 
-fn check1(backend: &str, f: &Fn1, x: f32, r: &mut Report, maxerr: Option<&Mutex<f64>>) {
+fn check1(backend: &str, f: &Fn1, x: f32, r: &mut Report, maxerr: Option<&String>) {
     let want = (f.r)(x);
     match caught(|| (f.f)(x)) {
         Err(p) => r.violation(format!("{backend}-{}-panic|{:#010x}", f.name, x.to_bits()), format!("{backend}::{}({x:e}) panicked: {p}", f.name), obj! {"kind" => "fn1", "backend" => backend, "name" => f.name, "x" => fbits(x)}),
         Ok(got) => {
             let (ok, e) = judge(got, want, f.b);
-            if let Some(m) = maxerr { if e.is_finite() { let mut g = m.lock().unwrap(); if e > *g { *g = e; } } }
+            if let Some(site) = maxerr { if e.is_finite() { r.margin(site, e, 1.0); } }
             if !ok {
                 let cls = if x == 0.0 { if x.is_sign_negative() { "negzero" } else { "zero" } } else if x.abs() < 1e-18 { "tiny" } else if x < 0.0 { "neg" } else { "pos" };
                 r.violation(format!("{backend}-{}|{cls}|{:#010x}", f.name, x.to_bits()), format!("{backend}::{}({x:e}) = {got:e}, reference {want:e} (err {e:.3e})", f.name), obj! {"kind" => "fn1", "backend" => backend, "name" => f.name, "x" => fbits(x)});
